@@ -29,13 +29,14 @@ func frameBoundaries(b []byte) []int {
 }
 
 type snapStream struct {
-	data     []byte
-	stateEnd int
-	wd       *World
-	h        *history
-	final    *State
-	sv       schemaView
-	tailIDs  int
+	blockModels map[uint32]*Model // model right before block b was read: what the state part must hold for block b
+	data        []byte
+	stateEnd    int
+	wd          *World
+	h           *history
+	final       *State
+	sv          schemaView
+	tailIDs     int
 }
 
 // buildSnapshotStream populates a collection with a seeded history and takes a snapshot while
@@ -64,8 +65,17 @@ func buildSnapshotStream(w *W, idx int, seed int64) *snapStream {
 	// snapshot with transactions committing at the hook points
 	ntail := 0
 	budget := rng.Intn(13) // up to 12 commits in the tail
+	blockModels := map[uint32]*Model{}
 	hook := func(point string, c *column.Collection, chunk uint32) {
-		if c != h.wd.P || budget <= 0 {
+		if c != h.wd.P {
+			return
+		}
+		defer func() {
+			if point == "snapshot.beforeBlock" {
+				blockModels[chunk] = h.wd.M.Clone() // block `chunk` is read next: it must hold exactly this
+			}
+		}()
+		if budget <= 0 {
 			return
 		}
 		switch point {
@@ -99,7 +109,7 @@ func buildSnapshotStream(w *W, idx int, seed int64) *snapStream {
 		panic("E5: hook snapshot.beforeCopy never reached")
 	}
 	sv := h.wd.M.view(h.wd.Keys)
-	return &snapStream{data: buf.Bytes(), stateEnd: stateEnd, wd: h.wd, h: h, final: dumpState(h.wd.P, sv), sv: sv, tailIDs: ntail}
+	return &snapStream{data: buf.Bytes(), stateEnd: stateEnd, wd: h.wd, h: h, final: dumpState(h.wd.P, sv), sv: sv, tailIDs: ntail, blockModels: blockModels}
 }
 
 // buildBigStream: a snapshot whose state part spans several s2 frames (> 1 MiB of incompressible
@@ -346,6 +356,17 @@ func truncSnapshotCase(w *W, idx int) {
 		c.Restore(bytes.NewReader(state))
 		return dumpState(c, s.sv)
 	}()
+	// anchor E_0 against the model: the state part alone must hold, for every block, exactly what the
+	// model held when that block was about to be read (the transactions run at the hook points are
+	// complete by then) - a state that mixes two cuts of a block is caught here, not by the E_j set
+	for b, mb := range s.blockModels {
+		if d := cmpBlock(e0, mb, b); d != "" {
+			w.Violate(idx, caseID, fmt.Sprintf("the state part of the snapshot (cut at the state/log boundary, %d bytes) restores without error but block %d is not the primary's block at the moment it was read: %s", s.stateEnd, b, d), "",
+				map[string]any{"idx": idx, "offset": s.stateEnd})
+			return
+		}
+		w.Stat("state_blocks_anchored_against_model", 1)
+	}
 	allowedErr := map[uint64]bool{}
 	maxBlock := uint32(0)
 	for _, r := range e0.Rows {
@@ -442,6 +463,23 @@ func truncLogCase(w *W, idx, k int) {
 			}
 			return nil
 		})
+	}
+	if k%5 == 2 {
+		// a bulk commit whose FIRST column buffer alone exceeds two s2 blocks and is followed by another
+		// column: an inner frame boundary can then coincide with a field boundary of the commit
+		h.wd.P.Query(func(txn *column.Txn) error {
+			for i := 0; i < 16384; i++ {
+				txn.Insert(func(r column.Row) error {
+					r.SetString("s", h.g.randBytes(130+i%23))
+					r.SetInt64("i64", int64(i))
+					r.SetEnum("e", "red")
+					return nil
+				})
+			}
+			return nil
+		})
+		want += 4
+		w.Stat("logs_with_multi_frame_multi_column_commit", 1)
 	}
 	commits := h.wd.Log.take()
 	if len(commits) > want+1 {
